@@ -736,7 +736,7 @@ func (c *client) filterSystemLocalValues(stmt *parser.SelectStatement, columns [
 		if name == "rpc_address" {
 			return codecs.EncodeType(datatype.Inet, c.proxy.cluster.NegotiatedVersion, c.localIP())
 		} else if name == "host_id" {
-			return codecs.EncodeType(datatype.Uuid, c.proxy.cluster.NegotiatedVersion, nameBasedUUID(c.localIP().String()))
+			return codecs.EncodeType(datatype.Uuid, c.proxy.cluster.NegotiatedVersion, nameBasedUUID(c.localAddrName()))
 		} else if val, ok := c.proxy.systemLocalValues[name]; ok {
 			return val, nil
 		} else if name == parser.CountValueName {
@@ -760,6 +760,15 @@ func (c *client) localIP() net.IP {
 			panic("unhandled local address type")
 		}
 	}
+}
+
+// localAddrName is the name the local node's host ID is derived from: the text of its address, exactly as the
+// other proxies derive it from their peers configuration (this includes the zone of a scoped IPv6 address).
+func (c *client) localAddrName() string {
+	if addr := c.proxy.localNode.addr; addr != nil {
+		return addr.String()
+	}
+	return c.localIP().String()
 }
 
 func (c *client) filterSystemPeerValues(stmt *parser.SelectStatement, columns []*message.ColumnMetadata, peer *node, peerCount int) (row []message.Column, err error) {
